@@ -56,6 +56,11 @@ class BuiltinMixin:
             m = self.find_method(v.cls, "__len__")
             if m:
                 return self.call_fn(p, self.fn_for(m[0], "__len__"), [v], {}, node)
+            if self.lenient and self.classes[v.cls].mod is None and not self.classes[v.cls].fields:
+                # an abstract (field-less) class standing for an unmodelled container: some non-negative length
+                n = z3.Int(fresh_name("opaque_len"))
+                p.assume(n >= 0)
+                return self.raise_if(p, v.z == NULL, "TypeError", f"L{getattr(node, 'lineno', '?')}:len(None)", lambda q: [(q, VInt(n))])
         raise Unsupported(f"len({v!r})")
 
     def bi_tuple(self, p, args, kwargs, node):
